@@ -708,6 +708,35 @@ pub fn gen_lines(d: &Decl, rng: &mut Rng, n: usize) -> Vec<(String, &'static str
     for k in 0..n {
         let v = tops[k % tops.len()];
         let toks = gen_valid_tokens(d, v, rng, false);
+        if k % 7 == 6 {
+            // several independent faults in one line: the first offending item (left to right) must be the one reported
+            let with_bad = rng.chance(60);
+            let mut t = gen_valid_tokens(d, v, rng, with_bad);
+            for _ in 0..rng.range(2, 3) {
+                match rng.below(4) {
+                    0 => {
+                        let junk = rng.pick(&["extra", "--nope", "-Z", "--bogus", "surplus", "-é"]).to_string();
+                        let at = rng.range(1, t.len());
+                        t.insert(at, junk);
+                    }
+                    1 if t.len() > 2 => {
+                        let at = rng.range(1, t.len() - 1);
+                        t.remove(at);
+                    }
+                    2 => t.push(rng.pick(&["extra", "--bogus", "-Z"]).to_string()),
+                    _ if t.len() < 2 => t.push("surplus".to_string()),
+                    _ => {
+                        // spoil a value in place
+                        let at = rng.range(1, t.len() - 1);
+                        if !t[at].starts_with('-') {
+                            t[at] = rng.pick(&["many", "1x", "", "99999999999999999999999999999999999999999"]).to_string();
+                        }
+                    }
+                }
+            }
+            out.push((render_tokens(&t, rng), "multi-fault"));
+            continue;
+        }
         match rng.below(10) {
             0..=3 => out.push((render_tokens(&toks, rng), "valid")),
             4 => {
